@@ -38,41 +38,57 @@ def run(prog: Program, rep: Report, tier: str):
     rep.analysed_add("functions", f"{fi.module.relpath}:{fi.qualname}")
 
     # ---- 1. partner sharing ---------------------------------------------------------------------------------------
-    rep.rule("G4.partner-threading", "every self.shuffle(...) call in collate passes permutation=<one local P> and binds its second "
-             "result to that same P (tuple unpacking at the call); P has no other definition than an initial None - so on "
-             "every path each shuffle after the first receives exactly the permutation the previous one returned, and image "
+    rep.rule("G4.partner-threading", "every self.shuffle(...) call in collate that can follow another one receives, on every path, the "
+             "permutation an earlier shuffle returned: each definition of its permutation argument that reaches the call is the "
+             "second result of a shuffle or the initial None, no shuffle lies on a path from such a None to the call without "
+             "re-binding the variable, and a shuffle that is followed by another one binds the permutation it returns - image "
              "and label are mixed with the same partner")
     sh = [(n, c) for n, c in fa.calls_named("shuffle") if isinstance(c.func, ast.Attribute)
           and fa.sym.term(c.func.value, n) == ("param", fa.self_name)]
     rep.floor("shuffle call sites in collate", len(sh), 3)
-    pvars = set()
+    sh_nodes = {n for n, _ in sh}
+
+    def _second_target(n_):
+        st_ = cfg.nodes[n_].ast if cfg.nodes[n_].kind == "stmt" else None
+        if isinstance(st_, ast.Assign) and isinstance(st_.value, ast.Call) and isinstance(st_.targets[0], ast.Tuple) \
+                and len(st_.targets[0].elts) == 2:
+            return _name(st_.targets[0].elts[1])
+        return None
+
     for n, c in sh:
         nd = cfg.nodes[n]
         st = nd.ast if nd.kind == "stmt" else None
-        passed = None
-        for k in c.keywords:
-            if k.arg == "permutation":
-                passed = _name(k.value)
-        if passed is None and len(c.args) >= 2:
-            passed = _name(c.args[1])
-        bound = None
-        if isinstance(st, ast.Assign) and st.value is c and isinstance(st.targets[0], ast.Tuple) and len(st.targets[0].elts) == 2:
-            bound = _name(st.targets[0].elts[1])
-        ok = passed is not None and bound == passed
-        if ok:
-            pvars.add(passed)
-        rep.decide(ok, "G4.partner-threading", fi, f"shuffle:{' '.join(ast.unparse(st if st is not None else c).split())[:90]}",
-                   f"passes and rebinds '{passed}'",
-                   f"this shuffle passes permutation={passed or 'a non-variable'} and binds its second result to "
-                   f"{bound or 'nothing'}: the next shuffle draws a new partner permutation (image and label mixed with "
-                   f"different partners in shuffle_mode='random')", line=c.lineno, clause="C10.1")
-    if pvars:
-        P = sorted(pvars)[0]
-        other = [n for n, var, val in fa.stores() if var == P and n not in {x for x, _ in sh}
-                 and not (val is not None and fa.sym.term(val, n) == ("const", None))]
-        rep.decide(len(pvars) == 1 and not other, "G4.partner-threading", fi, "one-permutation-variable",
-                   f"'{P}' is defined only as None and by the shuffle calls",
-                   "the permutation is held in several variables / re-assigned elsewhere", clause="C10.1")
+        pexpr = next((k.value for k in c.keywords if k.arg == "permutation"), c.args[1] if len(c.args) >= 2 else None)
+        passed = _name(pexpr)
+        construct = f"shuffle:{' '.join(ast.unparse(st if st is not None else c).split())[:90]}"
+        problems = []
+        earlier = [m for m in sh_nodes if m != n and cfg.reachable(m, n)]
+        if passed is None:
+            if earlier:
+                problems.append("no permutation variable is passed although an earlier shuffle already drew the partner "
+                                "permutation")
+        else:
+            all_defs = {m for m, var, val in fa.stores() if var == passed}
+            for d in sorted(cfg.reaching().get(n, {}).get(passed, set())):
+                from_shuffle = d in sh_nodes and _second_target(d) == passed
+                is_none = _defines_none(fa, d, passed)
+                if not (from_shuffle or is_none):
+                    problems.append(f"'{passed}' may come from line {fa.line(d)}, which is neither the permutation returned by "
+                                    f"a shuffle nor the initial None")
+                if is_none:
+                    # a shuffle between the None and this call drew a permutation that this call does not receive
+                    for m in sorted(earlier):
+                        if m not in all_defs and cfg.reachable(d, m, avoid=all_defs - {d}) and cfg.reachable(m, n, avoid=all_defs):
+                            problems.append(f"the shuffle at line {fa.line(m)} draws the partner permutation but it is not "
+                                            f"bound to '{passed}': this call still passes None and draws a new one")
+                            break
+            later = [m for m in sh_nodes if m != n and cfg.reachable(n, m)]
+            if later and _second_target(n) is None:
+                problems.append("the permutation this shuffle returns is not bound although later shuffles need it")
+        rep.decide(not problems, "G4.partner-threading", fi, construct,
+                   f"receives the permutation of the earlier shuffles via '{passed}'",
+                   "; ".join(problems) + ": image and label are mixed with different partners in shuffle_mode='random'",
+                   line=c.lineno, clause="C10.1")
     # shuffle itself: reuses a given permutation
     shf = C.methods.get("shuffle")
     if shf is not None:
@@ -119,6 +135,23 @@ def run(prog: Program, rep: Report, tier: str):
         L1 = f.value.args[0]
         inner = c.args[0]
         mixes.append((n, c, own, L1, inner))
+    # the same mix written as two in-place operator statements:  own *= L ; own += partner.mul_(1 - L)
+    for n, nd in cfg.nodes.items():
+        st = nd.ast if nd.kind == "stmt" else None
+        if not (isinstance(st, ast.AugAssign) and isinstance(st.op, ast.Add)):
+            continue
+        prev = [p_ for p_ in cfg.g.predecessors(n)]
+        if len(prev) != 1:
+            continue
+        pst = cfg.nodes[prev[0]].ast if cfg.nodes[prev[0]].kind == "stmt" else None
+        if isinstance(pst, ast.AugAssign) and isinstance(pst.op, ast.Mult) and ast.dump(pst.target) == ast.dump(st.target):
+            own_l = ast.parse(ast.unparse(st.target), mode="eval").body
+            call = ast.Call(func=ast.Attribute(value=ast.Call(func=ast.Attribute(value=own_l, attr="mul_", ctx=ast.Load()),
+                                                              args=[pst.value], keywords=[]), attr="add_", ctx=ast.Load()),
+                            args=[st.value], keywords=[])
+            ast.copy_location(call, st)
+            ast.fix_missing_locations(call)
+            mixes.append((n, call, own_l, pst.value, st.value))
     rep.floor("in-place mix statements", len(mixes), 4)
     lam_store = [(n, val) for n, var, val in fa.stores() if var == "ctx[]" and val is not None
                  and any(isinstance(t, ast.Subscript) and isinstance(t.slice, ast.Constant) and t.slice.value == "lambda"
@@ -142,9 +175,8 @@ def run(prog: Program, rep: Report, tier: str):
                             f"of it (own and partner weights exchanged?)")
         if w2 != Poly.const(1) - term_to_poly(L):
             problems.append(f"the partner weight {ast.unparse(inner.args[0])} is not 1 - {ast.unparse(L1)}")
-        partner = inner.func.value
-        own_t, part_t = fa.sym.term(own, n), fa.sym.term(partner, n)
-        own_name = _base_name(own)
+        partner = fa.expand(inner.func.value, n)
+        own_name = _base_name(fa.expand(own, n))
         # partner provenance
         prov = _partner_of(fa, partner, n, sh)
         if prov is None:
@@ -189,7 +221,7 @@ def run(prog: Program, rep: Report, tier: str):
             for m, nd in cfg.nodes.items():
                 if nd.kind == "stmt" and isinstance(nd.ast, ast.Assign) and isinstance(nd.ast.targets[0], ast.Tuple) \
                         and [_name(e) for e in nd.ast.targets[0].elts] == names4 and cfg.dominates(m, n):
-                    src = nd.ast.value
+                    src = fa.expand(nd.ast.value, m)
                     bb = _base_name(src)
                     # bbox variable: at the unpack, every reaching definition is the first result of a
                     # get_random_bbox call (besides a None initialisation on paths without cutmix)
@@ -216,8 +248,14 @@ def run(prog: Program, rep: Report, tier: str):
         for k in c.keywords:
             if k.arg == "lamb":
                 lam_arg = _name(k.value)
+        lam_expr = next((k.value for k in c.keywords if k.arg == "lamb"), c.args[2] if len(c.args) >= 3 else None)
+        lam_arg = _name(lam_expr)
         flows = lam_t is not None and lam_var is not None and (lam_t == lam_var or _flows_into(fa, lam_t, lam_var, g))
-        rep.decide(ok and lam_t is not None and lam_t == lam_arg and flows, "G8.cutmix-adjusted", fi,
+        # the drawn (uncorrected) weight must be out of the game after the call: it is overwritten by the corrected one, was
+        # never a variable of its own, or at least does not flow into the reported / label weight any more
+        drawn_gone = lam_arg is None or lam_arg == lam_t or not (
+            lam_var is not None and (lam_arg == lam_var or _flows_into(fa, lam_arg, lam_var, g)))
+        rep.decide(ok and lam_t is not None and drawn_gone and flows, "G8.cutmix-adjusted", fi,
                    f"bbox-call:{' '.join(ast.unparse(gst).split())[:70]}",
                    "the area-corrected lambda replaces the drawn one and reaches ctx['lambda'] / the label mix",
                    "the area-corrected lambda returned by get_random_bbox is dropped or bound to a different variable than "
@@ -229,12 +267,23 @@ def run(prog: Program, rep: Report, tier: str):
              "parameter per sample (anything derived from self.rng draws or get_random_bbox: use-cutmix flags, lambdas, boxes) "
              "are indexed by the loop variable i itself - sample i's operation, box and weight are its own, exactly like the "
              "label weights lamb[i]; the partner index may only index data")
-    loops = [(n, nd) for n, nd in cfg.nodes.items() if nd.kind == "next" and isinstance(nd.owner.target, ast.Name)
+    loops = [(n, nd, nd.owner.target.id) for n, nd in cfg.nodes.items() if nd.kind == "next" and isinstance(nd.owner.target, ast.Name)
              and fa.sym.term(nd.owner.iter, cfg.stmt_node[nd.owner])[:2] == ("call", ("global", "range"))]
     tainted = _random_params(fa)
     n_idx = 0
-    for LN, nd in loops:
-        I = ("var", nd.owner.target.id, frozenset({LN}))
+    # for i, (a, b) in enumerate(zip(A, B)): i is the sample index, a / b are A[i] / B[i] by construction
+    for n, nd in cfg.nodes.items():
+        if nd.kind == "next" and isinstance(nd.owner.target, ast.Tuple) and len(nd.owner.target.elts) == 2 and isinstance(
+                nd.owner.target.elts[0], ast.Name) and isinstance(nd.owner.iter, ast.Call) and _name(nd.owner.iter.func) == \
+                "enumerate" and len(nd.owner.iter.args) == 1 and not nd.owner.iter.keywords:
+            loops.append((n, nd, nd.owner.target.elts[0].id))
+            inner_it = nd.owner.iter.args[0]
+            if isinstance(inner_it, ast.Call) and _name(inner_it.func) == "zip":
+                n_idx += sum(1 for a_ in inner_it.args if _name(a_) in tainted)
+            elif _name(inner_it) in tainted:
+                n_idx += 1
+    for LN, nd, ivar in loops:
+        I = ("var", ivar, frozenset({LN}))
         body = cfg.nodes_inside(nd.owner.body)
         for n in sorted(body):
             for x in cfg.walk_node(n):
@@ -245,7 +294,7 @@ def run(prog: Program, rep: Report, tier: str):
                     rep.decide(it == I, "G5.per-sample-index", fi, f"index:{ast.unparse(x)}",
                                f"{ast.unparse(x.value)} indexed by the loop variable",
                                f"per-sample parameter '{ast.unparse(x.value)}' is indexed by {ast.unparse(x.slice)} "
-                               f"({show(it)}) instead of the loop variable: sample {nd.owner.target.id} is processed with "
+                               f"({show(it)}) instead of the loop variable: sample {ivar} is processed with "
                                f"another sample's flag / box / weight while its label uses its own", line=x.lineno,
                                clause="C10.3")
     rep.floor("per-sample parameter subscripts in the per-sample loop", n_idx, 3)
@@ -254,22 +303,64 @@ def run(prog: Program, rep: Report, tier: str):
     rep.rule("G9.items-pass-through", "set_item is called only for items fetched with get_item under the same literal item name, "
              "with the fetched (mixed) variable as value, under '<that variable> is not None'; a label that was unsqueezed "
              "for binary classification is squeezed back under the flag set at the unsqueeze")
-    gets: Dict[str, str] = {}
-    for n, c in fa.calls_named("get_item"):
-        item = next((k.value.value for k in c.keywords if k.arg == "item" and isinstance(k.value, ast.Constant)), None)
-        # the variable it is (eventually) bound to: the assignment statement's target
-        st = cfg.nodes[n].ast
-        if item is not None and isinstance(st, ast.Assign) and isinstance(st.targets[0], ast.Name):
-            gets[item] = st.targets[0].id
+    def _item_of(call: ast.Call, kw: str, pos: int):
+        e = next((k.value for k in call.keywords if k.arg == kw), call.args[pos] if len(call.args) > pos else None)
+        return e
+
+    def _origins(name: str, at: int, depth: int = 6, seen=None) -> Set[str]:
+        """Item names under which the object held by ``name`` at node ``at`` was fetched with get_item; '?' for a value of
+        another origin.  Copies, None initialisations and tensor methods applied to the object (type / unsqueeze / squeeze /
+        float ...) are looked through, over *all* reaching definitions."""
+        seen = seen if seen is not None else set()
+        out: Set[str] = set()
+        for d in cfg.reaching().get(at, {}).get(name, set()):
+            if (d, name) in seen:
+                continue
+            seen.add((d, name))
+            if cfg.nodes[d].kind == "entry":
+                out.add("?")
+                continue
+            val = cfg.def_value(d, name)
+            if val is None:
+                # in-place method call statements (x.mul_(..)) are recorded as definitions of the same object: skip them
+                st_ = cfg.nodes[d].ast if cfg.nodes[d].kind == "stmt" else None
+                if isinstance(st_, ast.Expr) or isinstance(st_, ast.AugAssign):
+                    out |= _origins(name, d, depth, seen)
+                else:
+                    out.add("?")
+                continue
+            e = val
+            while True:
+                if isinstance(e, ast.Call) and isinstance(e.func, ast.Attribute) and not (
+                        isinstance(e.func.value, ast.Name) and e.func.value.id == "ModeWrapper") and e.func.attr != "get_item":
+                    e = e.func.value  # a tensor method on the object
+                    continue
+                break
+            if isinstance(e, ast.Constant) and e.value is None:
+                continue
+            if isinstance(e, ast.Call) and isinstance(e.func, ast.Attribute) and e.func.attr == "get_item":
+                it = _item_of(e, "item", 1)
+                out.add(it.value if isinstance(it, ast.Constant) and isinstance(it.value, str) else "?")
+            elif isinstance(e, ast.Name) and depth > 0:
+                out |= _origins(e.id, d, depth - 1, seen)
+            else:
+                out.add("?")
+        return out
+
+    n_get = len(fa.calls_named("get_item"))
     for n, c in fa.calls_named("set_item"):
-        item = next((k.value.value for k in c.keywords if k.arg == "item" and isinstance(k.value, ast.Constant)), None)
-        val = next((_name(k.value) for k in c.keywords if k.arg == "value"), None)
+        it = _item_of(c, "item", 1)
+        item = it.value if isinstance(it, ast.Constant) else None
+        ve = _item_of(c, "value", 3)
+        val = _name(ve)
         conds = fa.conds_at(n)
         guarded = any(cd[0] == "not" and cd[1][0] == "is" and any(x[0] == "var" and x[1] == val for x in cd[1][1])
                       for cd in conds)
-        ok = item in gets and gets[item] == val and guarded
+        org = _origins(val, n) if val is not None else {"?"}
+        ok = item is not None and org == {item} and guarded
         rep.decide(ok, "G9.items-pass-through", fi, f"set_item:{item}", f"writes back '{val}' fetched as item '{item}'",
-                   f"set_item(item={item!r}) writes '{val}', which was not fetched under that item name (fetched: {gets})",
+                   f"set_item(item={item!r}) writes '{val}', which was fetched as {sorted(org)}" + (
+                       "" if guarded else f" and is not guarded by '{val} is not None'"),
                    line=c.lineno, clause="C10.4")
     uns = [(n, c) for n, c in fa.calls_named("unsqueeze")]
     sqs = [(n, c) for n, c in fa.calls_named("squeeze")]
@@ -313,7 +404,7 @@ def _slices(sub: ast.Subscript) -> List[ast.Slice]:
 
 
 def _partner_of(fa: FA, partner: ast.AST, at: int, shuffles) -> Optional[str]:
-    """Name of the data variable the partner expression is a shuffle of."""
+    """Name of the data variable the partner expression (temporaries already expanded) is a shuffle of."""
     nm = _base_name(partner)
     cfg = fa.cfg
     reach = cfg.reaching().get(at, {}).get(nm, set())
@@ -323,13 +414,20 @@ def _partner_of(fa: FA, partner: ast.AST, at: int, shuffles) -> Optional[str]:
         if n in reach and isinstance(st, ast.Assign) and isinstance(st.targets[0], ast.Tuple) \
                 and _name(st.targets[0].elts[0]) == nm:
             item = next((k.value for k in c.keywords if k.arg == "item"), c.args[0] if c.args else None)
+            item = fa.expand(item, n) if item is not None else None
             if isinstance(item, ast.Name):
                 return item.id
     # indexed clone: X_clone[j] with X_clone = X.clone() and j from the shuffled arange
     if isinstance(partner, ast.Subscript):
         for n, var, val in fa.stores():
             if var == nm and isinstance(val, ast.Call) and isinstance(val.func, ast.Attribute) and val.func.attr == "clone":
-                idx = partner.slice.elts[0] if isinstance(partner.slice, ast.Tuple) else partner.slice
+                sub0 = partner
+                while isinstance(sub0, (ast.Subscript, ast.Attribute, ast.Call)) and not (
+                        isinstance(sub0, ast.Subscript) and _name(sub0.value) == nm):
+                    sub0 = sub0.value if not isinstance(sub0, ast.Call) else sub0.func
+                if not isinstance(sub0, ast.Subscript):
+                    continue
+                idx = sub0.slice.elts[0] if isinstance(sub0.slice, ast.Tuple) else sub0.slice
                 jt = fa.sym.term(idx, at)
                 # j = shuffled_indices[i]
                 names_ = {x[1] for x in leaves(jt) if x[0] == "var"}
@@ -337,7 +435,7 @@ def _partner_of(fa: FA, partner: ast.AST, at: int, shuffles) -> Optional[str]:
                     st = cfg.nodes[sn].ast
                     if isinstance(st, ast.Assign) and isinstance(st.targets[0], ast.Tuple) and _name(
                             st.targets[0].elts[0]) in names_ | _resolve_names(fa, idx, at):
-                        return _name(val.func.value)
+                        return _base_name(fa.expand(val.func.value, n))
     return None
 
 
@@ -354,6 +452,8 @@ def _resolve_names(fa: FA, e: ast.AST, at: int, depth=3) -> Set[str]:
                 if d < depth:
                     for dn in fa.cfg.reaching().get(n, {}).get(y.id, ()):
                         val = fa.cfg.def_value(dn, y.id)
+                        if val is None and fa.cfg.nodes[dn].kind == "next":
+                            val = fa.cfg.nodes[dn].owner.iter  # a loop target is built from the sequence(s) it walks
                         if val is not None and (dn, y.id) not in seen:
                             seen.add((dn, y.id))
                             work.append((val, dn, d + 1))
